@@ -108,7 +108,7 @@ func (j *c06job) input() string {
 const (
 	c06MaxModelExpanded = 400
 	c06MaxModelWork     = 60
-	c06MaxModelSearched = 100000 // PN-squared: nodes created by all second-level searches of one run
+	c06MaxModelSearched = 40000 // PN-squared: nodes created by all second-level searches of one run
 )
 
 // ---------- PN-squared: what the second level did, read from the log lines of pn2() (Config.Debug > 2) ----------
